@@ -224,8 +224,7 @@ func parseDefinition(cur *Cursor) (def definition, err error) {
 	// читаем тип после знака =
 	//                                     ↓ - курсор здесь
 	// ipPort#d433ad73 ipv4:int port:int = IpPort;
-	if cur.IsNext("Vector") {
-		cur.Skip(1) // skip <
+	if cur.IsNext("Vector<") { // with bracket: type name can start with this word too (VectorClock)
 		def.EqType, err = cur.ReadAt('>')
 		if err != nil {
 			return def, fmt.Errorf("parse def eq type: %w", err)
@@ -291,11 +290,10 @@ func parseParam(cur *Cursor) (param Parameter, err error) {
 	}
 
 	// читаем тип параметра
-	if cur.IsNext("Vector") {
+	if cur.IsNext("Vector<") { // with bracket: type name can start with this word too (VectorClock)
 		//                               ↓ - курсор здесь
 		// correct_answers:flags.0?Vector<bytes> foo:bar
 
-		cur.Skip(1) // skip <
 		param.IsVector = true
 		param.Type, err = cur.ReadAt('>')
 		if err != nil {
